@@ -613,7 +613,7 @@ func (r *CPUSuppress) adjustByCfsQuota(cpuQuantity *resource.Quantity, node *cor
 
 	minQuotaDelta := float64(node.Status.Capacity.Cpu().Value()) * float64(system.DefaultCPUCFSPeriod) * suppressBypassQuotaDeltaRatio
 	//  delta is large enough
-	if math.Abs(float64(newBeQuota)-float64(currentBeQuota)) < minQuotaDelta && newBeQuota != beMinQuota {
+	if currentBeQuota != beUnsetQuota && math.Abs(float64(newBeQuota)-float64(currentBeQuota)) < minQuotaDelta && newBeQuota != beMinQuota {
 		klog.Infof("suppressBECPU: quota delta is too small, bypass suppress.reason: current quota: %d, target quota: %d, min quota delta: %f",
 			currentBeQuota, newBeQuota, minQuotaDelta)
 		return
